@@ -10,7 +10,7 @@ Three layers, all regenerated from the imported boltons.urlutils:
 """
 import boltons.urlutils as uu
 from boltons.urlutils import URL, URLParseError, find_all_links
-from vf.rt import cz, pin, pinval, assume, fail, done, notrace
+from vf.rt import internal, cz, pin, pinval, assume, fail, done, notrace
 from vf.check import Ob
 
 PROPERTY = 'C06'
@@ -51,12 +51,14 @@ def table_lemma(pins, timeout):
     queries = 0
     b = z3.BitVec('b', 8)
     for comp, tname in TABLES.items():
-        table = getattr(uu, tname)
+        table = internal(uu, tname)
         # encode the table as three functions of the byte: raw (bool), escape digits hi/lo (ints)
         is_raw = z3.BoolVal(False)
         well_formed = z3.BoolVal(True)
         legal = z3.BoolVal(False)
         for v in range(256):
+            if v in (0xC0, 0xC1) or v >= 0xF5:
+                continue                     # bytes that never occur in UTF-8: unreachable through the quoting functions
             out = table[v]
             if table[chr(v)] != out:
                 return {'verdict': 'counterexample', 'message': '%s: int and chr keys disagree for %d' % (tname, v),
@@ -85,7 +87,7 @@ def table_lemma(pins, timeout):
     # _HEX_CHAR_MAP inverts every %XX escape, case-insensitively
     hi, lo = z3.BitVec('hi', 8), z3.BitVec('lo', 8)
     good = z3.BoolVal(False)
-    hm = uu._HEX_CHAR_MAP
+    hm = internal(uu, '_HEX_CHAR_MAP')
     digits = '0123456789abcdefABCDEF'
     for a in digits:
         for c in digits:
@@ -101,28 +103,59 @@ def table_lemma(pins, timeout):
         m = s.model()
         return {'verdict': 'counterexample', 'message': 'hex map misses %c%c' % (m[hi].as_long(), m[lo].as_long()),
                 'call_args': '%r, %d' % ('hex', m[hi].as_long() * 256 + m[lo].as_long()), 'replay_function': 'replay_table', 'paths': queries}
-    if len(hm) != 22 * 22:
-        return {'verdict': 'counterexample', 'message': 'hex map has %d entries' % len(hm), 'call_args': "'hexlen', 0",
+    extra = sorted(k for k in hm if not (isinstance(k, bytes) and len(k) == 2 and all(chr(x) in digits for x in k)))
+    if extra:
+        return {'verdict': 'counterexample', 'message': 'hex map has entries for non-escapes: %r' % extra[:3], 'call_args': "'hexextra', %r" % (extra[0],),
                 'replay_function': 'replay_table', 'paths': queries}
     return {'verdict': 'confirmed', 'paths': queries, 'completed': queries, 'witness': queries,
             'samples': [{'tables': sorted(TABLES.values()), 'queries': queries}], 'solver_queries': queries}
 
 
+def _text_with_byte(v):
+    """a text whose NFC/UTF-8 form contains byte v (None for bytes that never occur in UTF-8)"""
+    import unicodedata
+    if v < 128:
+        return chr(v)
+    cands = list(range(0x80, 0x800)) + list(range(0x800, 0x10000, 0x40)) + list(range(0x10000, 0x110000, 0x1000))
+    for cp in cands:
+        if 0xD800 <= cp <= 0xDFFF:
+            continue
+        t = chr(cp)
+        if unicodedata.normalize('NFC', t) == t and v in t.encode('utf-8'):
+            return t
+    return None
+
+
 def replay_table(comp, v):
-    if comp == 'hexlen':
-        return True if len(uu._HEX_CHAR_MAP) == 22 * 22 else fail('hex_map_size', '%d entries' % len(uu._HEX_CHAR_MAP))
+    """confirm a table-level counterexample THROUGH THE PUBLIC FUNCTIONS (the tables are an implementation detail:
+    what the property states is the behaviour of quote_*_part / unquote)"""
+    if comp == 'hexextra':
+        raw = b'%' + v
+        return True if uu.unquote_to_bytes(raw) == raw else fail('unquote_decodes_malformed_escape', '%r -> %r' % (raw, uu.unquote_to_bytes(raw)))
     if comp == 'hex':
         key = bytes([v >> 8, v & 255])
-        if uu._HEX_CHAR_MAP.get(key) == bytes([int(key.decode(), 16)]):
+        if uu.unquote_to_bytes(b'%' + key) == bytes([int(key.decode(), 16)]):
             return True
-        return fail('hex_map_misses_escape', 'unquote table has no (or a wrong) entry for %%%s' % key.decode())
-    table = getattr(uu, TABLES[comp])
-    out = table[v]
-    if table[chr(v)] != out:
-        return fail('table_int_chr_keys')
-    if out == chr(v):
-        return True if chr(v) in RFC_LEGAL[comp] else fail('table_raw_illegal_character', '%s emits %r raw' % (comp, chr(v)))
-    return True if out == '%' + HEX[v >> 4] + HEX[v & 15] else fail('table_bad_escape', '%s[%d] = %r' % (comp, v, out))
+        return fail('unquote_misses_escape', 'unquote_to_bytes(%r) = %r' % (b'%' + key, uu.unquote_to_bytes(b'%' + key)))
+    quoter = {'userinfo': uu.quote_userinfo_part, 'path': uu.quote_path_part, 'query': uu.quote_query_part, 'fragment': uu.quote_fragment_part}[comp]
+    text = _text_with_byte(v)
+    if text is None:
+        return True
+    out = quoter(text, full_quote=True)
+    i = 0
+    while i < len(out):
+        c = out[i]
+        if c == '%':
+            if not (i + 2 < len(out) + 0 and out[i + 1] in '0123456789ABCDEFabcdef' and out[i + 2] in '0123456789ABCDEFabcdef'):
+                return fail('quoted_text_bad_escape', '%s(%r) = %r' % (comp, text, out))
+            i += 3
+            continue
+        if c not in RFC_LEGAL[comp]:
+            return fail('quoted_text_illegal_character', '%s(%r) = %r emits %r raw' % (comp, text, out, c))
+        i += 1
+    if uu.unquote(out) != text:
+        return fail('quote_not_undone_by_unquote', '%s(%r) = %r -> %r' % (comp, text, out, uu.unquote(out)))
+    return True
 
 
 # ------------------------------------------------------------------ layer 2: component cells
